@@ -148,9 +148,17 @@ pub fn s_far_beyond() -> Space {
     let mut cases = vec![];
     for m in 0..3usize {
         for e in 0..4usize {
-            for len in (7201..=8000).chain([10_000, 100_000, 1_000_000]) {
+            // beyond capacity: 7201..8000, powers of ten, and the neighbourhood of 2^16, 2^17, 2^20 and 2^24
+            // (a length narrowed to u16/u32 or split into bytes wraps around to a length that fits)
+            let mut lens: Vec<usize> = (7201..=8000).chain([10_000, 100_000, 1_000_000]).collect();
+            for k in [16u32, 17, 20, 24] {
+                let p = 1usize << k;
+                lens.extend([p - 1, p, p + 1, p + 17, p + 255, p + 256, p + 1000, p + r::cap(40, e, m), p + r::cap(40, e, m) + 1]);
+            }
+            lens.extend([255 * 256 + 255 + 1, 3 * 65536 + 41, 2 * 65536]);
+            for len in lens {
                 for version in [None, Some(1u8), Some(40u8)] {
-                    if version.is_some() && len % 100 != 0 {
+                    if version.is_some() && len % 100 != 0 && len < 60_000 {
                         continue;
                     }
                     cases.push(Case {
@@ -161,7 +169,7 @@ pub fn s_far_beyond() -> Space {
             }
         }
     }
-    Space { name: "S_beyond".into(), describe: "lengths 7201..=8000 and 10^4, 10^5, 10^6 x 3 modes x 4 levels (version automatic; forced 1 and 40 on multiples of 100)".into(), cases, exhaustive: true }
+    Space { name: "S_beyond".into(), describe: "lengths 7201..=8000, 10^4, 10^5, 10^6 and the neighbourhoods of 2^16, 2^17, 2^20, 2^24 (wrap-around of a narrowed length) x 3 modes x 4 levels (version automatic; forced 1 and 40 on multiples of 100 and on all lengths >= 60000)".into(), cases, exhaustive: true }
 }
 
 pub fn c05(ctx: &Ctx) -> Collector {
